@@ -127,8 +127,22 @@ m={"version":1,
  "hooks":{"guard":"verif","enable":"gowp loads /repo/v8 with -tags verif so that the comment-only contract files v8/<pkg>/zz_contracts_verif.go are parsed; no executable code is guarded","baseline_off_cmd":"cd /repo/v8 && GOFLAGS=-mod=mod GOPROXY=off go test -vet=off -count=1 ./...","source_commits":hooks,"add_only":True},
  "engines":[{"name":"gowp","path":"gowp/","serves_properties":sorted(claimed),"kind_free_text":"home-built verification-condition generator for Go (go/packages + go/ssa, merged symbolic execution, contracts in //@ comment files, loop invariants with Houdini inference, frames) with z3-new 5.1.0 / z3 4.8.12 / cvc5 1.0 as back ends; counterexamples replayed on the real code with go test -overlay"}],
  "checks":[],
- "notes":"See DESIGN.md. known_findings.json lists genuine defects (fixed: commits in /repo, known: still open).",
+ "notes":"See DESIGN.md section 0 (as built). known_findings.json lists genuine defects (fixed: commits in /repo, known: still open). ./check runs speccheck.py once per version of spec/ (every quantified axiom satisfiable on its own) and exits 2 with SPEC-INCONSISTENT otherwise. selftest/run.sh is the must-fail corpus (20 property-breaking diffs), selftest/run_harmless.sh the must-pass corpus (7 behaviour-preserving diffs); seeded/ holds the confirmed seeded changes with SUMMARY.json; runall.sh runs every check.",
  "not_applicable":[]}
+addenda={
+ "C02":" Also decided: the clean-up goroutine evicts with the skew GetReplayCache was given (value-flow check over SSA, obligation kind table).",
+ "C05":" A bounded encrypt/decrypt round trip on the real code (all six etypes, lengths 0..80, labelled bounded) stands in for code-level completeness of decryption.",
+ "C10":" ensureValidSession leaves a session unrefreshed only while more than a sixth of its lifetime remains at the clock reading taken under the session lock.",
+ "C11":" session.destroy and sessions.update are verified with channel sends as no-ops on the modelled state; blocking sends go only to channel fields whose creation sites all have capacity >= 1 (structural obligation).",
+ "C12":" Every connection gets a deadline after the latest clock reading (dialling moves the ghost clock); sendTCP returns a reply only if both io.ReadFull calls filled their buffers.",
+ "C13":" The bounded round trip includes a real Decrypt for each of the six etypes (a decrypted ticket re-encodes to the bytes decoded).",
+ "C14":" principal.marshal is proved to write the component count the way parsePrincipal reads it back (version 1 counts the realm; defect fixed in 54a8b3c); a bounded keytab round trip (labelled bounded) covers the whole file.",
+ "C15":" A bounded stand-in (independent ccache writer, versions 1-4) covers whole files and client.NewFromCCache; it is labelled bounded and not counted as proved.",
+ "C16":" ResolveRealm is covered by a bounded exhaustive stand-in against an independent most-specific-match oracle (labelled bounded).",
+ "C19":" GetGroupMembershipSIDs returns every extra SID of the validation info; the times, ids and names VerifyAPREQ and the Basic authenticator hand to the credentials are field by field those of the PAC just verified; every PAC failure is reported as a failed PAC.",
+}
+for k,v in addenda.items():
+    if k in claimed and v not in claimed[k]["text"]: claimed[k]["text"]+=v
 for pid in ids:
     if pid in claimed:
         c=claimed[pid]
